@@ -146,9 +146,12 @@ func (r *replication) replicate(c *conn, req *appendReq) error {
 		}
 
 		if r.nextIndex < r.ldrLastIndex && !r.log.Contains(r.nextIndex) {
-			if err := r.sendInstallSnapReq(c, req); err == nil {
-				continue
+			// note: on failure conn cannot be used anymore. the
+			// request with snapshot might be partially written
+			if err := r.sendInstallSnapReq(c, req); err != nil {
+				return err
 			}
+			continue
 		}
 
 		// todo: before starting pipeline, check if sending snap
